@@ -531,9 +531,9 @@ pub fn run(tier: Tier, seed: u64) -> i32 {
   rep.min_nontrivial = tier.pick(500, 20_000);
   rep.floor("rebuilds_with_known_roots", 200);
   rep.floor("history_len:2", 50);
-  let n1 = tier.pick(12000, 320000);
+  let n1 = tier.pick(12000, 2560000);
   let mut acc = par_run(n1, |i, acc| partition_case(i, seed, acc));
-  let n2 = tier.pick(20000, 480000);
+  let n2 = tier.pick(20000, 3840000);
   let acc2 = par_run(n2, |i, acc| reload_case(i, seed, acc));
   acc.merge(acc2);
   rep.finish(acc)
